@@ -429,6 +429,7 @@ package meta
 //@   holds fsm.mu
 //@   at after proto.GetExtension#1: assume typeis(callresult0, "*metapb.SetDataCommand") && ival(callresult0) != 0
 //@   ensures rejected_changes_nothing: result != nil ==> fsm.data == old(fsm.data)
+//@   call Data.unmarshal#1 assume_callee_requires
 //@   call Data.unmarshal#1 requires runs_on_private_copy: fresh(fsm.data)
 
 //@ func (*storeFSM).applyCreateMetaNodeCommand
@@ -568,10 +569,6 @@ package meta
 //@   assumed
 //@   modifies *except storeFSM.all store.all
 
-//@ func (*Data).unmarshal
-//@   assumed
-//@   modifies *except storeFSM.all store.all
-
 // ---- GENERATED-FSM END ----
 
 // ---- C19: lock discipline of the meta store and client (swept over every function of the package) ----
@@ -668,3 +665,122 @@ package meta
 //@   at before append#1: ghost w[rangeindex+1] = 1
 //@   loop 3 invariant own_storage: cap(remainingShardGroups) == 0 || fresh(remainingShardGroups)
 //@   loop 3 invariant kept_what_must_stay: all(k, 0, rangeindex+1, ms[k] == 1 ==> w[k] == 1)
+
+// ---- C07: the protobuf form of the metadata carries every field over and back ----
+// marshal() writes each scalar field into the message and one child message per element; unmarshal() reads each
+// of them back (an absent field reads as the zero value). The snapshot a restarted or lagging meta node
+// restores from is this form, so a field dropped on either side makes replicas diverge silently.
+//@ pure u64(p) = ite(p == nil, 0, *p)
+//@ pure i64(p) = ite(p == nil, 0, *p)
+//@ pure str(p) = ite(p == nil, "", *p)
+
+//@ func (ShardOwner).marshal
+//@   props C07
+//@   ensures carries_node_id: result != nil && fresh(result) && u64(result.NodeID) == so.NodeID
+//@   modifies nothing
+//@ func (*ShardOwner).unmarshal
+//@   props C07
+//@   ensures restores_node_id: so.NodeID == u64(pb.NodeID) || pb == nil
+//@   modifies so.NodeID
+
+//@ func (NodeInfo).marshal
+//@   props C07
+//@   ensures carries_all: result != nil && fresh(result) && u64(result.ID) == ni.ID && str(result.Addr) == ni.Addr && str(result.TCPAddr) == ni.TCPAddr
+//@   modifies nothing
+//@ func (*NodeInfo).unmarshal
+//@   props C07
+//@   requires pb != nil
+//@   ensures restores_all: ni.ID == u64(pb.ID) && ni.Addr == str(pb.Addr) && ni.TCPAddr == str(pb.TCPAddr)
+//@   modifies ni.ID, ni.Addr, ni.TCPAddr
+
+//@ func (ShardInfo).marshal
+//@   props C07
+//@   loop 1 invariant building: pb != nil && fresh(pb) && u64(pb.ID) == si.ID && len(pb.Owners) == len(si.Owners) && (len(pb.Owners) == 0 || fresh(pb.Owners))
+//@   loop 1 invariant owners_carried: all(k, 0, rangeindex+1, pb.Owners[k] != nil && u64(pb.Owners[k].NodeID) == si.Owners[k].NodeID)
+//@   ensures carries_id_and_owners: result != nil && fresh(result) && u64(result.ID) == si.ID && len(result.Owners) == len(si.Owners)
+//@   ensures every_owner_carried: all(k, 0, len(si.Owners), result.Owners[k] != nil && u64(result.Owners[k].NodeID) == si.Owners[k].NodeID)
+//@   modifies nothing
+
+//@ func (*ShardInfo).unmarshal
+//@   props C07
+//@   requires pb != nil && len(pb.OwnerIDs) == 0
+//@   requires owners_present: all(k, 0, len(pb.Owners), pb.Owners[k] != nil)
+//@   dead loop1-body
+//@   dead after-ShardOwner.unmarshal#1
+//@   loop 2 invariant restoring: si.ID == u64(pb.ID) && len(si.Owners) == len(pb.Owners) && fresh(si.Owners)
+//@   loop 2 invariant owners_restored: all(k, 0, rangeindex+1, si.Owners[k].NodeID == u64(pb.Owners[k].NodeID))
+//@   ensures restores_id: si.ID == u64(pb.ID)
+//@   ensures restores_owners: len(pb.Owners) > 0 ==> len(si.Owners) == len(pb.Owners) && all(k, 0, len(pb.Owners), si.Owners[k].NodeID == u64(pb.Owners[k].NodeID))
+//@   modifies si.ID, si.Owners, ShardOwner.NodeID
+
+// a time travels as UnixNano, the zero time as 0 (MarshalTime / UnmarshalTime)
+//@ pure mtime(t) = ite(t.IsZero(), 0, t.UnixNano())
+//@ pure utime_ok(t, i) = ite(i == 0, t.IsZero(), t.UnixNano() == i)
+//@ func (*ShardGroupInfo).marshal
+//@   props C07
+//@   loop 1 invariant building: pb != nil && fresh(pb) && len(pb.Shards) == len(sgi.Shards) && (len(pb.Shards) == 0 || fresh(pb.Shards))
+//@   loop 1 invariant id: u64(pb.ID) == sgi.ID
+//@   loop 1 invariant start: i64(pb.StartTime) == mtime(sgi.StartTime)
+//@   loop 1 invariant end: i64(pb.EndTime) == mtime(sgi.EndTime)
+//@   loop 1 invariant deleted: i64(pb.DeletedAt) == mtime(sgi.DeletedAt)
+//@   loop 1 invariant truncated: (sgi.TruncatedAt.IsZero() == (pb.TruncatedAt == nil)) && i64(pb.TruncatedAt) == mtime(sgi.TruncatedAt)
+//@   ensures carries_times_and_id: result != nil && u64(result.ID) == sgi.ID && i64(result.StartTime) == mtime(sgi.StartTime) && i64(result.EndTime) == mtime(sgi.EndTime) && i64(result.DeletedAt) == mtime(sgi.DeletedAt) && i64(result.TruncatedAt) == mtime(sgi.TruncatedAt)
+//@   ensures truncation_flag_carried: sgi.TruncatedAt.IsZero() == (result.TruncatedAt == nil)
+//@   ensures one_message_per_shard: len(result.Shards) == len(sgi.Shards)
+//@   modifies nothing
+
+//@ func (*ShardGroupInfo).unmarshal
+//@   props C07
+//@   callee_requires_assumed
+//@   requires pb != nil
+//@   requires shards_present: all(k, 0, len(pb.Shards), pb.Shards[k] != nil)
+//@   loop 1 invariant id: sgi.ID == u64(pb.ID) && len(sgi.Shards) == len(pb.Shards)
+//@   loop 1 invariant start: sgi.StartTime.UnixNano() == i64(pb.StartTime)
+//@   loop 1 invariant end: sgi.EndTime.UnixNano() == i64(pb.EndTime)
+//@   loop 1 invariant deleted: utime_ok(sgi.DeletedAt, i64(pb.DeletedAt))
+//@   loop 1 invariant truncated: pb.TruncatedAt != nil ==> utime_ok(sgi.TruncatedAt, i64(pb.TruncatedAt))
+//@   ensures restores_id: sgi.ID == u64(pb.ID)
+//@   ensures restores_times: sgi.StartTime.UnixNano() == i64(pb.StartTime) && sgi.EndTime.UnixNano() == i64(pb.EndTime) && utime_ok(sgi.DeletedAt, i64(pb.DeletedAt)) && (pb.TruncatedAt != nil ==> utime_ok(sgi.TruncatedAt, i64(pb.TruncatedAt)))
+//@   ensures one_shard_per_message: len(pb.Shards) > 0 ==> len(sgi.Shards) == len(pb.Shards)
+
+// children that are not detailed here: only that they write nothing but their receiver (assumed)
+//@ func (DatabaseInfo).marshal
+//@   assumed
+//@   modifies nothing
+//@   ensures result != nil
+//@ func (*DatabaseInfo).unmarshal
+//@   assumed
+//@   modifies DatabaseInfo.all, RetentionPolicyInfo.all, ShardGroupInfo.all, ShardInfo.all, ShardOwner.all, SubscriptionInfo.all, ContinuousQueryInfo.all
+//@ func (UserInfo).marshal
+//@   assumed
+//@   modifies nothing
+//@   ensures result != nil
+//@ func (*UserInfo).unmarshal
+//@   assumed
+//@   modifies UserInfo.all
+//@ func (*Data).hasAdminUser
+//@   assumed
+//@   modifies nothing
+
+//@ func (*Data).marshal
+//@   props C07
+//@   loop 1 invariant building: pb != nil && fresh(pb) && counters_carried(pb, data) && len(pb.DataNodes) == len(data.DataNodes) && (len(pb.DataNodes) == 0 || fresh(pb.DataNodes))
+//@   loop 2 invariant building: pb != nil && fresh(pb) && counters_carried(pb, data) && len(pb.DataNodes) == len(data.DataNodes) && len(pb.MetaNodes) == len(data.MetaNodes) && (len(pb.MetaNodes) == 0 || fresh(pb.MetaNodes))
+//@   loop 3 invariant building: pb != nil && fresh(pb) && counters_carried(pb, data) && len(pb.DataNodes) == len(data.DataNodes) && len(pb.MetaNodes) == len(data.MetaNodes) && len(pb.Databases) == len(data.Databases) && (len(pb.Databases) == 0 || fresh(pb.Databases))
+//@   loop 4 invariant building: pb != nil && fresh(pb) && counters_carried(pb, data) && len(pb.DataNodes) == len(data.DataNodes) && len(pb.MetaNodes) == len(data.MetaNodes) && len(pb.Databases) == len(data.Databases) && len(pb.Users) == len(data.Users) && (len(pb.Users) == 0 || fresh(pb.Users))
+//@   ensures carries_counters: result != nil && counters_carried(result, data)
+//@   ensures one_message_per_element: len(result.DataNodes) == len(data.DataNodes) && len(result.MetaNodes) == len(data.MetaNodes) && len(result.Databases) == len(data.Databases) && len(result.Users) == len(data.Users)
+//@   modifies nothing
+//@ pure counters_carried(pb, data) = u64(pb.Term) == data.Term && u64(pb.Index) == data.Index && u64(pb.ClusterID) == data.ClusterID && u64(pb.MaxNodeID) == data.MaxNodeID && u64(pb.MaxShardGroupID) == data.MaxShardGroupID && u64(pb.MaxShardID) == data.MaxShardID
+
+//@ func (*Data).unmarshal
+//@   props C07
+//@   callee_requires_assumed
+//@   requires pb != nil
+//@   loop 1 invariant counters: counters_carried(pb, data)
+//@   loop 2 invariant counters: counters_carried(pb, data)
+//@   loop 3 invariant counters: counters_carried(pb, data)
+//@   loop 4 invariant counters: counters_carried(pb, data)
+//@   loop 5 invariant counters: counters_carried(pb, data)
+//@   ensures restores_counters: counters_carried(pb, data)
+//@   modifies *except storeFSM.all store.all
